@@ -6,11 +6,15 @@ use std::io;
 use std::marker::PhantomData;
 use std::ops::RangeBounds;
 
-pub trait RaftTypeConfig {}
+pub trait RaftTypeConfig {
+    type SnapshotData;
+}
 
 #[derive(Clone, Copy, Debug, Default, PartialEq, Eq, PartialOrd, Ord, Serialize, Deserialize)]
 pub struct AppTypeConfig;
-impl RaftTypeConfig for AppTypeConfig {}
+impl RaftTypeConfig for AppTypeConfig {
+    type SnapshotData = std::io::Cursor<Vec<u8>>;
+}
 
 #[derive(Clone, Debug, Serialize, Deserialize, PartialEq, Eq)]
 pub struct AppEntry(pub Vec<u8>);
@@ -41,8 +45,7 @@ pub struct Vote<C> {
 pub enum EntryPayload<C> {
     Blank,
     Normal(AppEntry),
-    #[serde(skip)]
-    _C(PhantomData<C>),
+    Membership(Membership<C>),
 }
 
 #[derive(Clone, Debug, PartialEq, Eq, Serialize, Deserialize)]
@@ -89,4 +92,96 @@ pub trait RaftLogStorage<C>: RaftLogReader<C> {
     async fn truncate(&mut self, log_id: LogId<C>) -> Result<(), io::Error>;
     async fn purge(&mut self, log_id: LogId<C>) -> Result<(), io::Error>;
     async fn get_log_reader(&mut self) -> Self::LogReader;
+}
+
+// ---- what the state-machine adapter (`MemStateMachine`) names; shapes follow openraft/src/{membership,storage} ----
+
+#[derive(Clone, Debug, PartialEq, Eq, Serialize, Deserialize)]
+pub struct AppResponse(pub Vec<u8>);
+
+/// a membership configuration; the adapter only stores and returns it
+#[derive(Clone, Debug, Default, PartialEq, Eq, Serialize, Deserialize)]
+pub struct Membership<C> {
+    pub id: u64,
+    #[serde(skip)]
+    pub _c: PhantomData<C>,
+}
+
+#[derive(Clone, Debug, Default, PartialEq, Eq)]
+pub struct StoredMembership<C> {
+    pub log_id: Option<LogId<C>>,
+    pub membership: Membership<C>,
+}
+impl<C> StoredMembership<C> {
+    pub fn new(log_id: Option<LogId<C>>, membership: Membership<C>) -> Self {
+        StoredMembership { log_id, membership }
+    }
+}
+
+#[derive(Clone, Debug, Default, PartialEq, Eq)]
+pub struct SnapshotMeta<C> {
+    pub last_log_id: Option<LogId<C>>,
+    pub last_membership: StoredMembership<C>,
+    pub snapshot_id: String,
+}
+
+pub struct Snapshot<C: RaftTypeConfig> {
+    pub meta: SnapshotMeta<C>,
+    pub snapshot: C::SnapshotData,
+}
+
+pub mod alias {
+    pub type SnapshotDataOf<C> = <C as super::RaftTypeConfig>::SnapshotData;
+}
+
+/// where the adapter sends the application's answer for an entry proposed on this node
+pub struct Responder<C> {
+    pub index: u64,
+    pub sink: std::rc::Rc<std::cell::RefCell<Vec<(u64, Vec<u8>)>>>,
+    pub _c: PhantomData<C>,
+}
+impl<C> Responder<C> {
+    pub fn send(self, r: AppResponse) {
+        self.sink.borrow_mut().push((self.index, r.0));
+    }
+}
+pub type EntryResponder<C> = (Entry<C>, Option<Responder<C>>);
+
+/// the two items of `futures` the adapter uses
+pub trait Stream {
+    type Item;
+    fn next_item(&mut self) -> Option<Self::Item>;
+}
+#[allow(async_fn_in_trait)]
+pub trait TryStreamExt<T, E>: Stream<Item = Result<T, E>> {
+    async fn try_next(&mut self) -> Result<Option<T>, E> {
+        self.next_item().transpose()
+    }
+}
+impl<T, E, S: Stream<Item = Result<T, E>> + ?Sized> TryStreamExt<T, E> for S {}
+
+pub struct VecStream<T>(pub std::collections::VecDeque<T>);
+impl<T> Stream for VecStream<T> {
+    type Item = T;
+    fn next_item(&mut self) -> Option<T> {
+        self.0.pop_front()
+    }
+}
+
+#[allow(async_fn_in_trait)]
+pub trait RaftSnapshotBuilder<C: RaftTypeConfig> {
+    async fn build_snapshot(&mut self) -> Result<Snapshot<C>, io::Error>;
+}
+
+#[allow(async_fn_in_trait)]
+pub trait RaftStateMachine<C: RaftTypeConfig> {
+    type SnapshotBuilder;
+    async fn applied_state(&mut self) -> Result<(Option<LogId<C>>, StoredMembership<C>), io::Error>;
+    async fn apply<Strm>(&mut self, entries: Strm) -> Result<(), io::Error>
+    where
+        Strm: Stream<Item = Result<EntryResponder<C>, io::Error>> + Unpin + OptionalSend;
+    async fn begin_receiving_snapshot(&mut self) -> Result<alias::SnapshotDataOf<C>, io::Error>;
+    async fn install_snapshot(&mut self, meta: &SnapshotMeta<C>, snapshot: alias::SnapshotDataOf<C>) -> Result<(), io::Error>;
+    async fn get_current_snapshot(&mut self) -> Result<Option<Snapshot<C>>, io::Error>;
+    async fn get_snapshot_builder(&mut self) -> Self::SnapshotBuilder;
 }
